@@ -293,7 +293,8 @@ class StreamingBody:
         out = self.data[self.pos:self.pos + n]
         self.pos += n
         self.call['delivered'] = self.pos
-        svc.trace.ev('s3.stream', call=self.call['id'], n=n, pos=self.pos)
+        svc.trace.ev('s3.stream', call=self.call['id'], n=n, pos=self.pos,
+                     clk=svc.sched.clock)
         return out
 
     def close(self):
@@ -436,7 +437,11 @@ class FakeClient:
         if script.get('preflight'):
             # header-mode flexible checksum: tell, read to EOF, seek back
             pos = body.tell()
-            read_all(body)
+            s.unbilled.add(s.cur.tid)
+            try:
+                read_all(body)
+            finally:
+                s.unbilled.discard(s.cur.tid)
             body.seek(pos)
         wire = body
         if chunked:
@@ -450,7 +455,11 @@ class FakeClient:
                 if script.get('sign'):
                     # payload signing: read everything, rewind
                     if not chunked:
-                        read_all(body)
+                        s.unbilled.add(s.cur.tid)
+                        try:
+                            read_all(body)
+                        finally:
+                            s.unbilled.discard(s.cur.tid)
                         body.seek(0)
 
             events.emit(f'request-created.s3.{opname}', mid_hook=sign,
@@ -476,6 +485,9 @@ class FakeClient:
                 if not d:
                     break
                 got += d
+                if not chunked:
+                    svc.trace.ev('s3.sent', call=rec['id'], n=len(d),
+                                 clk=s.clock)
                 if stop is not None and chunked and len(got) >= stop:
                     aborted = True
                     break
